@@ -25,9 +25,9 @@ type c15 struct{}
 
 func init() { core.Register(c15{}) }
 
-func (c15) ID() string    { return "C15" }
+func (c15) ID() string     { return "C15" }
 func (c15) Binary() string { return "ov" } // map iteration order pinned (the generator ranges over maps; C19 varies the order)
-func (c15) Level() string { return "exploration" }
+func (c15) Level() string  { return "exploration" }
 func (c15) Rule() string {
 	return "data models of two applications: type A.T1 (tuple or table) with two fields, each from a descriptor alphabet (primitive, optional, set/sequence of primitive, local reference, cross-application reference, set/sequence of reference, self reference, Table.field reference, reference to a dotted nested type), a second local type of every kind (tuple, table, primitive alias, enum), a type in application B whose name is distinct / equals A's second type / equals T1, and a dotted nested type; both the per-application and the whole-model diagram. Non-trivial = diagram with at least one relationship line; distinct by model"
 }
